@@ -19,7 +19,9 @@ THEOREMS = (["CKT.C02.check_" + n for n in FAMS + FIXED + ["kak"]]
                # the registry of the source (translated on every run: Generated/Names.lean) is the model's table of supported names
                "CKT.C02.registered_supported", "CKT.C02.supported_registered", "CKT.C02.registered_nodup", "CKT.C02.registered_exact"])
 RULE = ("all 20 explicitly supported names (parametrised ones at special angles 0, +-pi, 2pi k, |theta|>4pi, 1e-9 and random angles in "
-        "[-8pi, 8pi]) plus the KAK path (rzx, xx+-yy, open-control variants of the controlled gates, Haar-random and Weyl-corner unitaries with random local dressing) and refused "
+        "[-8pi, 8pi]) plus the KAK path (rzx, xx+-yy, open-control variants of the controlled gates, Haar-random and Weyl-corner unitaries with random local dressing, unitaries G.R / R.G with G a registered gate and R a rotation by "
+        "1e-5..8e-3 without local dressing), gates that carry a registered name without being the library object (declared in an OpenQASM 2 "
+        "program, hand-made Gate with a definition) and refused "
         "instructions; compared per map and side: operation names, each operation's transfer matrix (1e-9), coefficients, kappa, the "
         "target's 16x16 transfer matrix against Qiskit's Operator; non-trivial = basis produced; distinct by payload")
 ASSUMPTIONS = ["TwoQubitWeylDecomposition (Qiskit) is external: its output (a,b,c,K1l,K1r,K2l,K2r) is checked numerically per case, "
@@ -54,10 +56,55 @@ BOX_INNER = [("cx", []), ("cy", []), ("ch", []), ("cs", []), ("csx", []), ("ecr"
 # to decompose: it must be refused.  Each entry: form -> (is the value real, builder of the parameter from the reference value v)
 ANGLE_FORMS = ["int", "np64", "bound", "cplxreal", "plus0j", "imag", "cplx", "shift"]
 NONREAL_FORMS = ("imag", "cplx", "shift")
+# a gate that carries a registered NAME (and the angle in params[0]) without being the library object of that name: declared by the user in
+# an OpenQASM 2 program and loaded with qiskit.qasm2.loads ("qasm": a plain Gate subclass, not a ControlledGate, definition from the
+# program), or a hand-made Gate(name, 2, params) whose definition is the library gate ("plain").  Its definition IS the gate of that name (up
+# to a global phase; asserted when the input is built), the package dispatches on the name, so the basis must decompose it.
+USERDEF_QASM = """OPENQASM 2.0;
+gate h a { U(pi/2,0,pi) a; }
+gate s a { U(0,0,pi/2) a; }
+gate sdg a { U(0,0,-pi/2) a; }
+gate rz(t) a { U(0,0,t) a; }
+gate ry(t) a { U(t,0,0) a; }
+gate rx(t) a { U(t,-pi/2,pi/2) a; }
+gate crz(t) a,b { rz(t/2) b; CX a,b; rz(-t/2) b; CX a,b; }
+gate cry(t) a,b { ry(t/2) b; CX a,b; ry(-t/2) b; CX a,b; }
+gate crx(t) a,b { h b; crz(t) a,b; h b; }
+gate cp(t) a,b { rz(t/2) a; CX a,b; rz(-t/2) b; CX a,b; rz(t/2) b; }
+gate rzz(t) a,b { CX a,b; rz(t) b; CX a,b; }
+gate rxx(t) a,b { h a; h b; rzz(t) a,b; h a; h b; }
+gate ryy(t) a,b { rx(pi/2) a; rx(pi/2) b; rzz(t) a,b; rx(-pi/2) a; rx(-pi/2) b; }
+gate cx a,b { CX a,b; }
+gate cz a,b { h b; CX a,b; h b; }
+gate cy a,b { sdg b; CX a,b; s b; }
+gate cs a,b { cp(pi/2) a,b; }
+gate csdg a,b { cp(-pi/2) a,b; }
+gate csx a,b { h b; cp(pi/2) a,b; h b; }
+gate swap a,b { CX a,b; CX b,a; CX a,b; }
+gate dcx a,b { CX a,b; CX b,a; }
+gate iswap a,b { s a; s b; h a; CX a,b; CX b,a; h b; }
+qreg q[2];
+"""
+USERDEF = [("crx", [0.7]), ("cry", [-1.3]), ("crz", [2.9]), ("crx", [5 * math.pi / 3]), ("rxx", [0.7]), ("ryy", [-2.1]), ("rzz", [1.9]),
+           ("cp", [1.3]), ("cx", []), ("cz", []), ("cy", []), ("cs", []), ("csdg", []), ("csx", []), ("swap", []), ("dcx", []), ("iswap", [])]
+# two-qubit unitaries (UnitaryGate: the to_matrix/KAK path) that lie CLOSE TO, but are not, a gate with an explicit basis: G times a small
+# one- or two-qubit rotation (angle 1e-5 .. 8e-3), on either side, optionally times a global phase, WITHOUT any local conjugation (the Weyl
+# family above always dresses with Haar-random locals).  "Any other two-qubit unitary" must get an exact basis of ITS channel.
+NEAR_ROTS = ["rz0", "rx1", "rzz", "rxx", "ry0", "rzx", "rz1", "ryy", "ry1rz0"]
+NEAR_EPS = [5e-3, 1e-3, 3e-3, 1e-4, 8e-3, -2e-3, 1e-5]
+NEAR_BASE = [("cx", []), ("cz", []), ("swap", []), ("iswap", []), ("cs", []), ("csx", []), ("ecr", []), ("dcx", []), ("ch", []), ("cy", []),
+             ("csdg", []), ("csxdg", []), ("rzz", [0.7]), ("crx", [1.1]), ("cp", [-0.9]), ("rxx", [math.pi / 2])]
 
 
 def _det_cases():
     extra = {"or_exact": True, "always_oracle": True}
+    for i, (g_, ps) in enumerate(USERDEF):
+        yield ("refuse", {"gate": "userdef:" + g_, "params": ps, "how": "qasm", **extra})
+        if i % 2 == 0 or g_ in ("crx", "cry", "crz"):
+            yield ("refuse", {"gate": "userdef:" + g_, "params": ps, "how": "plain", **extra})
+    for i, (g_, ps) in enumerate(NEAR_BASE):
+        yield ("kak", {"gate": "near:" + g_, "params": ps, "rot": NEAR_ROTS[i % len(NEAR_ROTS)], "eps": NEAR_EPS[i % len(NEAR_EPS)],
+                       "left": i % 3 == 1, "phase": 0.7 if i % 4 == 2 else 0.0, "always_oracle": True})
     for i, (g_, ps) in enumerate(BOX_INNER):
         yield ("refuse", {"gate": "box:" + g_, "params": ps, "order": [1, 0], "depth": 1, **extra})
         if i % 4 == 0:
@@ -174,6 +221,10 @@ def _gate(payload):
         return MCPhaseGate(0.7, 2 if n == "mcphase2" else 3)
     if n.startswith("box"):
         return _box(payload)
+    if n.startswith("userdef:"):
+        return _userdef(payload)
+    if n.startswith("near:"):
+        return _near(payload)
     if n.startswith("angle_form:"):
         return _lib_cls(n.split(":")[1])(_angle_param(payload["form"], payload["params"][0]))
     if n.startswith("annot_"):
@@ -228,6 +279,46 @@ def _angle_param(form, v):
     if form == "shift":
         return (p + 0.4j).bind({p: v})
     raise KeyError(form)
+
+
+def _userdef(payload):
+    """a gate with a registered name that is not the library object of that name (see USERDEF_QASM)"""
+    from qiskit import QuantumCircuit, qasm2
+    from qiskit.circuit import Gate, ControlledGate
+    from qiskit.quantum_info import Operator
+    name = payload["gate"].split(":")[1]
+    ps = [float(x) for x in payload.get("params", ())]
+    lib = canon.mk_op(name, ps)
+    if payload["how"] == "qasm":
+        call = name + ("(" + ",".join(repr(x) for x in ps) + ")" if ps else "") + " q[0],q[1];\n"
+        g = qasm2.loads(USERDEF_QASM + call).data[0].operation
+    else:
+        g = Gate(name, 2, list(ps))
+        qc = QuantumCircuit(2)
+        qc.append(lib, [0, 1])
+        g.definition = qc
+    # sanity of the input itself (independent of the package): right name, right angle, the gate of that name, not the library class
+    assert g.name == name and [float(x) for x in g.params] == ps and not isinstance(g, (ControlledGate, type(lib))), payload
+    assert Operator(g).equiv(Operator(lib)), payload
+    return g
+
+
+def _near(payload):
+    """UnitaryGate(e^{i phase} G R) or (e^{i phase} R G): R a rotation by the small angle eps, G a gate with an explicit basis"""
+    from qiskit.circuit.library import UnitaryGate
+    from qiskit.quantum_info import Operator
+    G = Operator(canon.mk_op(payload["gate"].split(":")[1], payload.get("params", ()))).data
+    e, I2 = float(payload["eps"]), np.eye(2)
+    one = lambda nm, a: Operator(canon.mk_op(nm, [a])).data
+    rot = payload["rot"]
+    if rot in ("rzz", "rxx", "ryy", "rzx"):
+        R = one(rot, e)
+    elif rot == "ry1rz0":
+        R = np.kron(one("ry", e), one("rz", -2 * e))
+    else:
+        R = np.kron(one(rot[:2], e), I2) if rot[2] == "1" else np.kron(I2, one(rot[:2], e))
+    U = R @ G if payload.get("left") else G @ R
+    return UnitaryGate(np.exp(1j * float(payload.get("phase", 0.0))) * U)
 
 
 def _box(payload):
@@ -442,7 +533,7 @@ def oracle(kind, payload):
             return None
         except Exception as ex:
             return f"wrapped instruction {payload['gate']} raised {type(ex).__name__} instead of ValueError"
-        what = {k: payload[k] for k in ("gate", "params", "order", "depth", "form") if k in payload}
+        what = {k: payload[k] for k in ("gate", "params", "order", "depth", "form", "how") if k in payload}
         U = _wrapped_target(payload, g)
         if U is None:
             return (f"instruction {what} has an angle that is not real ({g.params[0]}), so it has no unitary and cannot be decomposed, "
@@ -464,7 +555,8 @@ def oracle(kind, payload):
     except Exception as ex:
         return f"supported instruction {payload['gate']}{payload.get('params')} raised {type(ex).__name__}: {ex}"
     if err > 1e-7:
-        return f"basis of {payload['gate']}{payload.get('params')} is not an exact decomposition: max transfer-matrix error {err:.3e}"
+        more = "".join(f" {k}={payload[k]}" for k in ("rot", "eps", "left", "phase") if k in payload)
+        return f"basis of {payload['gate']}{payload.get('params')}{more} is not an exact decomposition: max transfer-matrix error {err:.3e}"
     return None
 
 
